@@ -273,15 +273,22 @@ fn st_strategy() -> impl Strategy<Value = St> {
         prop_oneof![3 => Just(Sk::Select), 1 => Just(Sk::Insert), 1 => Just(Sk::Update)],
         prop_oneof![4 => 0u16..4, 1 => 4u16..40],
         prop_oneof![3 => Just(0u16), 2 => 1u16..12, 1 => 12u16..40],
+        // now and then the reply starts with NoticeResponses that by themselves reach pgcat's 8196-byte relay threshold
+        prop_oneof![
+            12 => Just(String::new()),
+            1 => Just("notice=0 noticelen=9000".to_string()),
+            1 => Just("notice=0,0,0 noticelen=3000".to_string()),
+            1 => Just("notice=0,0,0,0,0,0,0,0,0,0,0,0,0,0,0,0,0,0,0,0,0,0,0,0,0,0,0,0,0,0,0,0,0,0,0,0,0,0,0,0 noticelen=250".to_string()),
+        ],
     )
-        .prop_map(|(kind, rows, delay_ms)| St { kind, rows, delay_ms, err_at: None, extra: String::new() })
+        .prop_map(|(kind, rows, delay_ms, extra)| St { kind, rows, delay_ms, err_at: None, extra })
 }
 
 fn anon_batch() -> impl Strategy<Value = Req> {
     (st_strategy(), any::<bool>(), prop_oneof![Just(0i32), Just(0i32), Just(2i32)]).prop_map(|(st, describe, max)| {
         let mut st = st;
         if max > 0 {
-            st.extra = "suspend".into();
+            st.extra = if st.extra.is_empty() { "suspend".into() } else { format!("{} suspend", st.extra) };
         }
         let mut v = vec![Ext::Parse(String::new(), st.clone(), vec![])];
         if describe {
